@@ -121,14 +121,14 @@ RangeToken* RangeTokenMap::getRange(const XMLCh* const keyword,
 
     XERCES_VERIF_YIELD("RangeTokenMap::getRange");
     RangeTokenElemMap* elemMap = fTokenRegistry->get(keyword);
-    RangeToken* rangeTok = elemMap->getRangeToken(complement);
+    RangeToken* rangeTok = 0;
 
-    if (!rangeTok)
+    //  Whether the token exists is decided under the mutex: an unlocked first check
+    //  (plain read of the pointer) raced with setRangeToken in a thread creating it.
     {
         XMLMutexLock lockInit(&fMutex);
         XERCES_VERIF_ACCESS("RangeTokenMap.registry", this, &fMutex, 1);
 
-        // make sure that it was not created while we were locked
         rangeTok = elemMap->getRangeToken(complement);
 
         if (!rangeTok)
